@@ -29,7 +29,7 @@ notes = open(os.path.join(src, 'notes.md')).read().splitlines() if os.path.exist
 head = subprocess.run(['git', '-C', '/repo', 'rev-parse', '--short', 'HEAD'], capture_output=True, text=True).stdout.strip()
 meta = {
     'id': new_id, 'breaks_property': prop,
-    'origin': 'independent sub-agent (round 2) given only the property text and a scratch worktree',
+    'origin': 'independent sub-agent (round ' + os.environ.get('SEED_ROUND', '2') + ') given only the property text and a scratch worktree',
     'needs_to_manifest': notes,
     'confirmed_by_me': {
         'patch_applies': True, 'existing_suite_passes_with_patch': True,
